@@ -87,7 +87,11 @@ def lin_units(base):
     """linear counterpart with every admissible prefix on its first unit"""
     first = base.split("/")[0]
     rest = base[len(first):]
-    return [(p + first + rest, (PREF[p] if p else 1.0)) for p in [""] + R.UNITS[first].prefixes]
+    out = [(p + first + rest, (PREF[p] if p else 1.0)) for p in [""] + R.UNITS[first].prefixes]
+    if rest == "/m2":
+        # the same quantity per another area: the factor of the second unit belongs inside the logarithm too
+        out += [(first + "/cm2", 1e4), (first + "/mm2", 1e6), ("m" + first + "/cm2", 10.0), (first + "/km2", 1e-6)]
+    return out
 
 
 def build_pairs():
@@ -314,6 +318,19 @@ def _check(case, v):
                                        f"expected {exp!r} {u}")
         if r.units() != u:
             return v.fail("sum-units", f"result units {r.units()!r} != {u!r}")
+        # the augmented spelling is the same operation
+        try:
+            acc = Quantity(a, u)
+            if op == "+":
+                acc += Quantity(b, u2)
+            else:
+                acc -= Quantity(b, u2)
+            got2 = np.atleast_1d(np.asarray(acc.value(), dtype=float)).tolist()
+        except Exception as e:
+            return v.fail("sum-raised", f"q = Quantity({a!r},{u!r}); q {op}= Quantity({b!r},{u2!r}) raised {e!r}")
+        if len(got2) != len(exp) or not all(close(g, e, 1e-8, 1e-8) for g, e in zip(got2, exp)):
+            return v.fail("sum-value", f"q = Quantity({a!r},{u!r}); q {op}= Quantity({b!r},{u2!r}) gives {acc.value()!r} "
+                                       f"{acc.units()}, expected {exp!r} {u}")
         if kind == "sum" and not isinstance(a, list) and abs(level_to_db(a, u)) < 2900 and abs(level_to_db(b, u)) < 2900:
             # (beyond +-2900 dB the linear power is not a normal double: the sum is computed on subnormals)
             # operands that are one object, or derived from one another (results inherit their operand's internals)
